@@ -140,6 +140,8 @@ use parser::Importance;
 pub enum Display {
     /// display: none
     None,
+    /// Any other display value: the element is rendered as usual
+    Other,
     #[cfg(feature = "css_ext")]
     /// Show node as HTML DOM
     ExtRawDom,
@@ -173,23 +175,27 @@ pub struct StyleDecl {
 
 
 // ---- abstract view (ours): what a declaration contributes to the computed style ----
-pub enum SView { Colour(u8, u8, u8), BgColour(u8, u8, u8), DisplayNone, WhiteSpace(WhiteSpace), Content(Seq<char>) }
+pub enum SView { Colour(u8, u8, u8), BgColour(u8, u8, u8), DisplayNone, DisplayOther, WhiteSpace(WhiteSpace), Content(Seq<char>) }
 spec fn sv(sd: StyleDecl) -> (SView, Importance) {
     (match sd.style {
         Style::Colour(c) => SView::Colour(c.r, c.g, c.b),
         Style::BgColour(c) => SView::BgColour(c.r, c.g, c.b),
         Style::Display(Display::None) => SView::DisplayNone,
+        Style::Display(Display::Other) => SView::DisplayOther,
         Style::WhiteSpace(w) => SView::WhiteSpace(w),
         Style::Content(pc) => SView::Content(pc.text@),
     }, sd.importance)
 }
 // C18 / design: colour, background, white-space and content declarations map one to one; `display: none` maps to
-// Display(None) with the declaration's own importance; every other declaration emits nothing by itself
+// Display(None), every other display value to Display(Other), each with the declaration's own importance; every other declaration
+// emits nothing by itself
 spec fn dview(d: parser::Declaration) -> Option<(SView, Importance)> {
     match d.data {
         parser::Decl::Color { value: parser::Colour::Rgb(r, g, b) } => Some((SView::Colour(r, g, b), d.important)),
         parser::Decl::BackgroundColor { value: parser::Colour::Rgb(r, g, b) } => Some((SView::BgColour(r, g, b), d.important)),
         parser::Decl::Display { value: parser::Display::None } => Some((SView::DisplayNone, d.important)),
+        // any other display value is a declaration of its own ("rendered"), so that it can win against display:none in the cascade (C18, C19)
+        parser::Decl::Display { value: parser::Display::Other } => Some((SView::DisplayOther, d.important)),
         parser::Decl::WhiteSpace { value } => Some((SView::WhiteSpace(value), d.important)),
         parser::Decl::Content { text } => Some((SView::Content(text@), d.important)),
         _ => None,
@@ -231,26 +237,25 @@ fn styles_from_properties(decls: &[parser::Declaration]) -> (styles_out: Vec<Sty
     ensures //@w
         // exactly the mapped declarations, in order, followed by one default-importance `display: none` iff the block //@w
         // both zeroes a height and hides overflow (C18) //@w
-        svs(styles_out@) =~= expected(decls@, decls@.len() as int) //@w[ @C18 @C19 #styles_are_exactly_the_mapped_declarations
-            + (if any_zero_height(decls@, decls@.len() as int) && any_hidden(decls@, decls@.len() as int) { seq![(SView::DisplayNone, Importance::Default)] } else { Seq::empty() }), //@w]
+        svs(styles_out@) =~= expected(decls@, decls@.len() as int) //@w @C18 @C19 #styles_are_exactly_the_mapped_declarations
+            + (if any_zero_height(decls@, decls@.len() as int) && any_hidden(decls@, decls@.len() as int) { seq![(SView::DisplayNone, Importance::Default)] } else { Seq::empty() }), //@w @C18 @C19 #styles_are_exactly_the_mapped_declarations
 {
     let mut styles: Vec<StyleDecl> = Vec::new();
     html_trace_quiet!("styles:from_properties2: {decls:?}");
     let mut overflow_hidden = false;
     let mut height_zero = false;
     for decl in it: decls
-        invariant //@w[
-            it.seq().len() == decls@.len(), forall|i: int| 0 <= i < decls@.len() ==> *(#[trigger] it.seq()[i]) == decls@[i],
-            svs(styles@) =~= expected(decls@, it.index@),
-            overflow_hidden == any_hidden(decls@, it.index@), height_zero == any_zero_height(decls@, it.index@),
-        //@w]
+        invariant //@w
+            it.seq().len() == decls@.len(), forall|i: int| 0 <= i < decls@.len() ==> *(#[trigger] it.seq()[i]) == decls@[i], //@w
+            svs(styles@) =~= expected(decls@, it.index@), //@w
+            overflow_hidden == any_hidden(decls@, it.index@), height_zero == any_zero_height(decls@, it.index@), //@w
     {
-        proof { //@w[
-            let k = it.index@;
-            assert(*decl == decls@[k]);
-            assert(any_hidden(decls@, k + 1) == (any_hidden(decls@, k) || hides_overflow(decls@[k])));
-            assert(any_zero_height(decls@, k + 1) == (any_zero_height(decls@, k) || zero_height(decls@[k])));
-        } //@w]
+        proof { //@w
+            let k = it.index@; //@w
+            assert(*decl == decls@[k]); //@w
+            assert(any_hidden(decls@, k + 1) == (any_hidden(decls@, k) || hides_overflow(decls@[k]))); //@w
+            assert(any_zero_height(decls@, k + 1) == (any_zero_height(decls@, k) || zero_height(decls@[k]))); //@w
+        } //@w
         html_trace_quiet!("styles:from_properties2: {decl:?}");
         match &decl.data {
             parser::Decl::Unknown { .. } => {}
@@ -317,7 +322,13 @@ fn styles_from_properties(decls: &[parser::Declaration]) -> (styles_out: Vec<Sty
                         importance: decl.important,
                     });
                 }
-                _ => (),
+                // A later or more specific `display: block` etc. overrides `display: none`.
+                parser::Display::Other => {
+                    styles.push(StyleDecl {
+                        style: Style::Display(Display::Other),
+                        importance: decl.important,
+                    });
+                }
             },
             parser::Decl::WhiteSpace { value } => {
                 styles.push(StyleDecl {
